@@ -77,9 +77,10 @@ class VChild:
 class VQueue:
     _ids = 0
 
-    def __init__(self, world: 'VWorld', name: str):
+    def __init__(self, world: 'VWorld', name: str, maxsize: int = 0):
         self.world = world
         self.name = name
+        self.capacity = maxsize if maxsize and maxsize > 0 else None
         self.buf: collections.deque = collections.deque()
         VQueue._ids += 1
         self.qid = VQueue._ids
@@ -92,6 +93,14 @@ class VQueue:
     def put(self, item, block=True, timeout=None):
         w = self.world
         if w.current_child is not None:
+            if self.capacity is not None:
+                # bounded queue: the feasible schedule "the worker emits its burst before the parent
+                # drains anything" - whatever does not fit is refused (put_nowait -> queue.Full)
+                pending = len(self.buf) + sum(1 for ev in w.current_child.script if ev[0] == 'put' and ev[1] is self)
+                if pending >= self.capacity:
+                    if not block or timeout is not None:
+                        raise _queue.Full()
+                    raise HarnessError('virtual child would block forever on a full bounded queue')
             data = pickle.dumps(item)     # Manager queues pickle what they carry
             if self.mode() == 'eager':
                 self.buf.append(pickle.loads(data))
@@ -101,7 +110,7 @@ class VQueue:
             self.buf.append(item)
 
     def put_nowait(self, item):
-        self.put(item)
+        self.put(item, block=False)
 
     def mode(self) -> str:
         return self.world.queue_mode(self)
@@ -139,7 +148,7 @@ class VManager:
 
     def Queue(self, maxsize=0):
         w = self.world
-        q = VQueue(w, f'q{len(w.queues)}')
+        q = VQueue(w, f'q{len(w.queues)}', maxsize)
         w.queue_order.append(q)
         return q
 
@@ -191,21 +200,29 @@ class VProcess:
 
 
 class VContext:
+    """A start-method context.  It deliberately does not remember the world it was created in:
+    code under test that caches a context object across runs (legitimate for real
+    multiprocessing contexts) must keep working - and keep being observed - in later
+    executions."""
+
     def __init__(self, world, name):
-        self.world = world
         self._name = name
+
+    @property
+    def world(self):
+        return CUR
 
     def get_start_method(self, allow_none=False):
         return self._name
 
     def Process(self, *a, **kw):
-        return VProcess(self.world, self._name, *a, **kw)
+        return VProcess(CUR, self._name, *a, **kw)
 
     def Manager(self):
-        return VManager(self.world)
+        return VManager(CUR)
 
     def Queue(self, maxsize=0):
-        return VManager(self.world).Queue(maxsize)
+        return VManager(CUR).Queue(maxsize)
 
 
 class VThread:
@@ -326,6 +343,7 @@ class VWorld:
         self.interrupted = 0              # number of interrupts delivered to the parent so far (C14)
         self.staged: Optional[list] = None
         self.draining: set = set()
+        self.burst_reduced = False
         self.frozen = False               # after a second interrupt: executing children make no progress unless terminated
 
     # ---- bookkeeping
@@ -552,16 +570,24 @@ class VWorld:
             idxs = [i for i in range(ch.pc, len(ch.script)) if ch.script[i][0] == 'put' and ch.script[i][1] is q]
             if idxs:
                 per_child.append((ch, idxs))
+        def counts(n):
+            # how many of a child's n pending puts may have happened; for a long burst only the
+            # boundary counts are explored (recorded as a reduction: self.burst_reduced)
+            if n <= 6:
+                return list(range(n + 1))
+            self.burst_reduced = True
+            return [0, 1, n // 2, n - 1, n]
+        opts = [counts(len(idxs)) for _, idxs in per_child]
         total = 1
-        for _, idxs in per_child:
-            total *= len(idxs) + 1
+        for o in opts:
+            total *= len(o)
         if total == 1:
             raise _queue.Empty()
         c = self.chooser.choose(total, ('drain', q.name, tuple(len(i) for _, i in per_child)), fp=self.fp())
         any_delivered = False
-        for ch, idxs in per_child:
-            k = c % (len(idxs) + 1)
-            c //= len(idxs) + 1
+        for (ch, idxs), o in zip(per_child, opts):
+            k = o[c % len(o)]
+            c //= len(o)
             if k:
                 self.commit_upto(ch, idxs[k - 1])
                 any_delivered = True
@@ -660,11 +686,12 @@ class Patched:
         global CUR
         import labtech.runners.process as P
         self.P = P
-        self.saved = {n: getattr(P, n) for n in self.NAMES}
-        P.multiprocessing = VMultiprocessing(self.world)
-        P.Thread = VThread
-        P.signal = VSignal(self.world)
-        P.os = VOs(self.world)
+        # a name the module no longer imports is simply not replaced (code that stops using
+        # threads, say, must still be explorable - its lines then run in the calling thread)
+        self.saved = {n: getattr(P, n) for n in self.NAMES if hasattr(P, n)}
+        repl = {'multiprocessing': VMultiprocessing(self.world), 'Thread': VThread, 'signal': VSignal(self.world), 'os': VOs(self.world)}
+        for n in self.saved:
+            setattr(P, n, repl[n])
         self.prev = CUR
         CUR = self.world
         return self.world
